@@ -197,10 +197,35 @@ class FileResolver:
                 glob_part = str(Path(*parts[i:]))
                 break
 
+        tool_ignore = self._get_tool_ignore(root)
+
         for path in root.glob(glob_part):
-            if path.is_file() and self._include_spec.match_file(path.name):
-                if not self._exceeds_max_size(path):
-                    yield path
+            if not path.is_file() or not self._include_spec.match_file(path.name):
+                continue
+            if self._exceeds_max_size(path):
+                continue
+            if self._is_glob_match_excluded(path, tool_ignore):
+                continue
+            yield path
+
+    def _is_glob_match_excluded(
+        self, path: Path, tool_ignore: tuple[Path, pathspec.PathSpec] | None
+    ) -> bool:
+        """
+        A file found by glob expansion is subject to the same exclusion and tool ignore
+        rules as one found by traversal: none of its directories (as written in the
+        expanded path) may be excluded, and no ignore rule may match it.
+        """
+        parents = path.parts[:-1]
+        for i, part in enumerate(parents):
+            if part in (".", ".."):
+                continue
+            rel = "/".join(p for p in parents[: i + 1] if p != ".")
+            if self._exclude_spec.match_file(part + "/") or self._exclude_spec.match_file(rel + "/"):
+                return True
+            if self._is_tool_ignored(Path(*parents[: i + 1]), True, tool_ignore):
+                return True
+        return self._is_tool_ignored(path, False, tool_ignore)
 
     def _exceeds_max_size(self, path: Path) -> bool:
         """Check if a file exceeds the configured max size. 0 = no limit."""
